@@ -14,7 +14,9 @@ use evalexpr::{
 use std::panic::{catch_unwind, AssertUnwindSafe};
 use std::sync::{Arc, Mutex};
 
-pub const FN_NAMES: [&str; 4] = ["f", "g", "h", "k"];
+pub const FN_NAMES: [&str; 5] = ["f", "g", "h", "k", "n"];
+/// builtin names that a context may shadow with a user function (user functions win)
+pub const SHADOW_NAMES: [&str; 3] = ["len", "str::from", "math::abs"];
 pub const VAR_NAMES: [&str; 3] = ["a", "b", "c"];
 pub const UNBOUND_NAME: &str = "zz";
 pub const UNKNOWN_FN: &str = "nofn";
@@ -26,6 +28,8 @@ pub fn sentinel(name: &str, arg: &V) -> V {
         "g" => Value::Int((hash_str(&cv(arg)) % 7) as i64),
         "h" => Value::Boolean(hash_str(&cv(arg)) & 1 == 1),
         "k" => Value::Tuple(vec![Value::String("k".into()), arg.clone()]),
+        // a variable name: lets programs compute assignment targets
+        "n" => Value::String(VAR_NAMES[(hash_str(&cv(arg)) % 3) as usize].to_string()),
         other => Value::Tuple(vec![Value::String(other.to_string()), arg.clone()]),
     }
 }
@@ -174,7 +178,11 @@ pub fn recording_function(
 }
 
 pub fn static_fn_name(name: &str) -> Option<&'static str> {
-    FN_NAMES.iter().copied().find(|n| *n == name)
+    FN_NAMES
+        .iter()
+        .chain(SHADOW_NAMES.iter())
+        .copied()
+        .find(|n| *n == name)
 }
 
 /// Initial state of the context of a run.
@@ -367,7 +375,12 @@ pub fn snapshot_vars(ctx: &HashMapContext<DefaultNumericTypes>) -> Vec<(String, 
 pub fn snapshot_fns(ctx: &HashMapContext<DefaultNumericTypes>) -> Vec<String> {
     let probe = Value::Int(41);
     let mut out = Vec::new();
-    for n in FN_NAMES.iter().chain([UNKNOWN_FN].iter()) {
+    // builtin names are probed too: `call_function` of a context never resolves builtins
+    for n in FN_NAMES
+        .iter()
+        .chain([UNKNOWN_FN, "typeof", "max"].iter())
+        .chain(SHADOW_NAMES.iter())
+    {
         out.push(format!("{}:{}", n, cr(&ctx.call_function(n, &probe))));
     }
     out.push(format!(
@@ -411,6 +424,95 @@ pub fn guarded<F: FnOnce() -> R>(f: F) -> (String, bool) {
     }
 }
 
+pub const TYPED_ENTRIES: [&str; 8] = [
+    "value", "int", "float", "number", "boolean", "string", "tuple", "empty",
+];
+
+/// What a typed entry point must return for an untyped result `r` (the typed entries are views
+/// of the one evaluator: same effects, result projected).
+pub fn project_typed(r: R, typed: usize) -> R {
+    let v = match r {
+        Ok(v) => v,
+        Err(e) => return Err(e),
+    };
+    match (typed, v) {
+        (0, v) => Ok(v),
+        (1, Value::Int(i)) => Ok(Value::Int(i)),
+        (1, v) => Err(EvalexprError::expected_int(v)),
+        (2, Value::Float(f)) => Ok(Value::Float(f)),
+        (2, v) => Err(EvalexprError::expected_float(v)),
+        (3, Value::Int(i)) => Ok(Value::Float(i as f64)),
+        (3, Value::Float(f)) => Ok(Value::Float(f)),
+        (3, v) => Err(EvalexprError::expected_number(v)),
+        (4, Value::Boolean(b)) => Ok(Value::Boolean(b)),
+        (4, v) => Err(EvalexprError::expected_boolean(v)),
+        (5, Value::String(s)) => Ok(Value::String(s)),
+        (5, v) => Err(EvalexprError::expected_string(v)),
+        (6, Value::Tuple(t)) => Ok(Value::Tuple(t)),
+        (6, v) => Err(EvalexprError::expected_tuple(v)),
+        (_, Value::Empty) => Ok(Value::Empty),
+        (_, v) => Err(EvalexprError::expected_empty(v)),
+    }
+}
+
+/// Mutable evaluation through the chosen entry point; typed results are wrapped back into values.
+pub fn eval_entry_mut<C>(tree: &Node, src: Option<&str>, ctx: &mut C, entry: Entry, typed: usize) -> R
+where
+    C: ContextWithMutableVariables + Context<NumericTypes = DefaultNumericTypes>,
+{
+    match (entry, src) {
+        (Entry::Str, Some(s)) => match typed {
+            0 => evalexpr::eval_with_context_mut(s, ctx),
+            1 => evalexpr::eval_int_with_context_mut(s, ctx).map(Value::Int),
+            2 => evalexpr::eval_float_with_context_mut(s, ctx).map(Value::Float),
+            3 => evalexpr::eval_number_with_context_mut(s, ctx).map(Value::Float),
+            4 => evalexpr::eval_boolean_with_context_mut(s, ctx).map(Value::Boolean),
+            5 => evalexpr::eval_string_with_context_mut(s, ctx).map(Value::String),
+            6 => evalexpr::eval_tuple_with_context_mut(s, ctx).map(Value::Tuple),
+            _ => evalexpr::eval_empty_with_context_mut(s, ctx).map(|_| Value::Empty),
+        },
+        _ => match typed {
+            0 => tree.eval_with_context_mut(ctx),
+            1 => tree.eval_int_with_context_mut(ctx).map(Value::Int),
+            2 => tree.eval_float_with_context_mut(ctx).map(Value::Float),
+            3 => tree.eval_number_with_context_mut(ctx).map(Value::Float),
+            4 => tree.eval_boolean_with_context_mut(ctx).map(Value::Boolean),
+            5 => tree.eval_string_with_context_mut(ctx).map(Value::String),
+            6 => tree.eval_tuple_with_context_mut(ctx).map(Value::Tuple),
+            _ => tree.eval_empty_with_context_mut(ctx).map(|_| Value::Empty),
+        },
+    }
+}
+
+/// Read-only evaluation through the chosen entry point.
+pub fn eval_entry_imm<C>(tree: &Node, src: Option<&str>, ctx: &C, entry: Entry, typed: usize) -> R
+where
+    C: Context<NumericTypes = DefaultNumericTypes>,
+{
+    match (entry, src) {
+        (Entry::Str, Some(s)) => match typed {
+            0 => evalexpr::eval_with_context(s, ctx),
+            1 => evalexpr::eval_int_with_context(s, ctx).map(Value::Int),
+            2 => evalexpr::eval_float_with_context(s, ctx).map(Value::Float),
+            3 => evalexpr::eval_number_with_context(s, ctx).map(Value::Float),
+            4 => evalexpr::eval_boolean_with_context(s, ctx).map(Value::Boolean),
+            5 => evalexpr::eval_string_with_context(s, ctx).map(Value::String),
+            6 => evalexpr::eval_tuple_with_context(s, ctx).map(Value::Tuple),
+            _ => evalexpr::eval_empty_with_context(s, ctx).map(|_| Value::Empty),
+        },
+        _ => match typed {
+            0 => tree.eval_with_context(ctx),
+            1 => tree.eval_int_with_context(ctx).map(Value::Int),
+            2 => tree.eval_float_with_context(ctx).map(Value::Float),
+            3 => tree.eval_number_with_context(ctx).map(Value::Float),
+            4 => tree.eval_boolean_with_context(ctx).map(Value::Boolean),
+            5 => tree.eval_string_with_context(ctx).map(Value::String),
+            6 => tree.eval_tuple_with_context(ctx).map(Value::Tuple),
+            _ => tree.eval_empty_with_context(ctx).map(|_| Value::Empty),
+        },
+    }
+}
+
 /// Executes one evaluation against the real library.
 pub fn run_real(
     tree: &Node,
@@ -419,6 +521,7 @@ pub fn run_real(
     kind: CtxKind,
     path: Path,
     entry: Entry,
+    typed: usize,
     faults: &[usize],
 ) -> Outcome {
     let rec: Rec = Arc::new(Mutex::new(Recorder {
@@ -438,11 +541,9 @@ pub fn run_real(
                 rec: rec.clone(),
             };
             enable(true);
-            let (result, panicked) = guarded(|| match (path, entry) {
-                (Path::Mut, Entry::Tree) => tree.eval_with_context_mut(&mut ctx),
-                (Path::Imm, Entry::Tree) => tree.eval_with_context(&ctx),
-                (Path::Mut, Entry::Str) => evalexpr::eval_with_context_mut(src.unwrap(), &mut ctx),
-                (Path::Imm, Entry::Str) => evalexpr::eval_with_context(src.unwrap(), &ctx),
+            let (result, panicked) = guarded(|| match path {
+                Path::Mut => eval_entry_mut(tree, src, &mut ctx, entry, typed),
+                Path::Imm => eval_entry_imm(tree, src, &ctx, entry, typed),
             });
             enable(false);
             (
@@ -458,11 +559,9 @@ pub fn run_real(
                 rec: rec.clone(),
             });
             enable(true);
-            let (result, panicked) = guarded(|| match (path, entry) {
-                (Path::Mut, Entry::Tree) => tree.eval_with_context_mut(&mut ctx),
-                (Path::Imm, Entry::Tree) => tree.eval_with_context(&ctx),
-                (Path::Mut, Entry::Str) => evalexpr::eval_with_context_mut(src.unwrap(), &mut ctx),
-                (Path::Imm, Entry::Str) => evalexpr::eval_with_context(src.unwrap(), &ctx),
+            let (result, panicked) = guarded(|| match path {
+                Path::Mut => eval_entry_mut(tree, src, &mut ctx, entry, typed),
+                Path::Imm => eval_entry_imm(tree, src, &ctx, entry, typed),
             });
             enable(false);
             (
@@ -475,21 +574,16 @@ pub fn run_real(
         CtxKind::Bare => {
             let mut ctx = setup.build(&rec);
             enable(true);
-            let (result, panicked) = guarded(|| match (path, entry) {
-                (Path::Mut, Entry::Tree) => tree.eval_with_context_mut(&mut ctx),
-                (Path::Imm, Entry::Tree) => tree.eval_with_context(&ctx),
-                (Path::Mut, Entry::Str) => evalexpr::eval_with_context_mut(src.unwrap(), &mut ctx),
-                (Path::Imm, Entry::Str) => evalexpr::eval_with_context(src.unwrap(), &ctx),
+            let (result, panicked) = guarded(|| match path {
+                Path::Mut => eval_entry_mut(tree, src, &mut ctx, entry, typed),
+                Path::Imm => eval_entry_imm(tree, src, &ctx, entry, typed),
             });
             enable(false);
             (result, panicked, snapshot_vars(&ctx), snapshot_fns(&ctx))
         },
         CtxKind::Empty => {
             let ctx = EmptyContext::<DefaultNumericTypes>::default();
-            let (result, panicked) = guarded(|| match entry {
-                Entry::Tree => tree.eval_with_context(&ctx),
-                Entry::Str => evalexpr::eval_with_context(src.unwrap(), &ctx),
-            });
+            let (result, panicked) = guarded(|| eval_entry_imm(tree, src, &ctx, entry, typed));
             let vars: Vec<(String, String)> =
                 ctx.iter_variables().map(|(n, v)| (n, cv(&v))).collect();
             (
@@ -504,10 +598,7 @@ pub fn run_real(
         },
         CtxKind::EmptyBuiltins => {
             let ctx = EmptyContextWithBuiltinFunctions::<DefaultNumericTypes>::default();
-            let (result, panicked) = guarded(|| match entry {
-                Entry::Tree => tree.eval_with_context(&ctx),
-                Entry::Str => evalexpr::eval_with_context(src.unwrap(), &ctx),
-            });
+            let (result, panicked) = guarded(|| eval_entry_imm(tree, src, &ctx, entry, typed));
             let vars: Vec<(String, String)> =
                 ctx.iter_variables().map(|(n, v)| (n, cv(&v))).collect();
             (
